@@ -89,6 +89,18 @@ def scenarios(ctx):
         s["sched_prob"] = 35
         s["sched_max_us"] = 150
         s["watchdog_s"] = 40
+    # "shutdown storms": many short executions in which consumers are (about to be) asleep on an empty queue when another
+    # thread shuts it down - the window between a consumer's predicate check and its sleep cannot be widened by a hook
+    # (it is inside std::condition_variable::wait), it can only be hit by repetition with varying delays
+    nstorm = 600 if quick else 6000
+    for ncons, extra in ((3, 0), (2, 1)):
+        st = q(extra, 1, ncons, -1, 0, True, 0)
+        st["seeds"] = [rnd.randrange(1, 1 << 30) for _ in range(nstorm)]
+        st["storm"] = True
+        st["sched_prob"] = 10
+        st["sched_max_us"] = 5
+        st["watchdog_s"] = 20
+        sc.append(st)
     return sc
 
 
